@@ -18,7 +18,7 @@ from pyvc.bisim import Bisim, reference_module, ABS_EXC
 PROP = "C23"
 MP = "bluesky.preprocessors"
 MS = "bluesky.plan_stubs"
-TRUSTED = ["A-PLAN (@plan transparent); abstract plans obey the generator protocol and do not yield while being closed",
+TRUSTED = ["closure keys are shallow for this check (frames of anonymous `yield from` sub-generators are not part of a cut key; see setup())", "A-PLAN (@plan transparent); abstract plans obey the generator protocol and do not yield while being closed",
            "driver vocabulary: send(v) (v arbitrary; for a 'stage' message None or the list [device]), throw(Exception / "
            "RunEngineControlException instance), close(), throw(GeneratorExit-subclass instance)",
            "uuid4 group identifiers: the k-th identifier requested is the same abstract token on both sides (fresh, opaque)",
@@ -50,6 +50,10 @@ def setup(I, name, cfg=None, **kw):
     b = Bisim(I, name, replay="generators.script" if cfg else None,
               cfg=dict(cfg, module=MP, ref_file=REF_FILE) if cfg else None, **kw)
     b.send_factory = sent_value
+    # cut keys do not descend into anonymous `yield from` sub-generators here (the product graph of the paired-action wrappers over several
+    # devices exceeds the budget otherwise); the wrappers' nested generators (finalize / contingency / plan_mutator frames) are reached through
+    # named locals, which the keys do include
+    b.deep_keys = False
     # precondition for this property: a plan that is being closed / halted does not raise a *different* exception
     # (the wrappers delegate through several generator layers; which layer turns such an exception into a RuntimeError
     # is not part of the statement, which excludes close/halt from the exits with cleanup)
